@@ -377,8 +377,10 @@ class Repo:
             except SyntaxError as e:
                 raise AnalysisError(f"cannot parse {rel}: {e}")
             if os.environ.get("TLSA_NO_LIFT") != "1":
-                from .normalise import append_loop_to_comprehension, counted_while_to_for, expand_dict_dispatch, fold_dict_lookup, lambda_lift, search_loop_to_membership, unroll_table_loops
+                from .normalise import append_loop_to_comprehension, counted_while_to_for, expand_dict_dispatch, expand_keyword_splat, fold_dict_lookup, inline_named_conditions, lambda_lift, search_loop_to_membership, unroll_table_loops
 
+                inline_named_conditions(tree)
+                expand_keyword_splat(tree)
                 search_loop_to_membership(tree)
                 fold_dict_lookup(tree)
                 expand_dict_dispatch(tree)
